@@ -40,6 +40,8 @@ POP = [
     # type names that extend another stored type name (directory / file-name matching in the filesystem source)
     dict(type="malware-analysis", spec_version="2.1", id="malware-analysis--" + U + "a", created=T1, modified=T2, product="alpha", result="benign", labels=["a"]),
     dict(type="x-foo-bar", spec_version="2.1", id="x-foo-bar--" + U + "b", created=T1, modified=T1, name="beta"),
+    # the only object of its type, and its identifier is written with upper-case hex digits (accepted and stored verbatim)
+    dict(type="course-of-action", spec_version="2.1", id="course-of-action--" + U.upper() + "D", created=T1, modified=T2, name="delta", labels=["a"]),
     # a heterogeneous list: the element that carries the sub-property comes AFTER elements that do not
     dict(type="attack-pattern", spec_version="2.1", id="attack-pattern--" + U + "c", created=T1, modified=T1, name="gamma",
          external_references=[{"source_name": "x", "url": "u"}, {"source_name": "capec", "external_id": "CAPEC-3"}, {"source_name": "y", "description": "d"}],
@@ -63,6 +65,8 @@ def filter_specs():
           ("created", ">", "2020-01-01T00:00:00Z"), ("created", ">=", "2020-01-02T00:00:00.000000Z"), ("modified", "<", "2020-01-02T00:00:00.000Z"),
           ("modified", "<=", ("$dt", "2020-01-02T00:00:00Z")), ("modified", "=", "2020-01-03T00:00:00.5Z"), ("modified", "!=", "2020-01-02T00:00:00Z"),
           ("created", "=", "2020-01-01T00:00:00Z"), ("created", "=", "2020-01-01T00:00:00.000Z"), ("modified", "<=", "2020-01-02T00:00:00.000Z"),
+          # more digits than the stored property keeps (2.0 created / modified are cut to milliseconds; the filter value is an instant, not cut)
+          ("modified", "=", "2020-01-01T00:00:00.0004Z"), ("modified", ">=", "2020-01-01T00:00:00.0004Z"), ("modified", "<", "2020-01-01T00:00:00.0004Z"),
           ("confidence", "<", 50), ("confidence", ">=", 50), ("confidence", "=", 50), ("revoked", "=", True), ("revoked", "!=", True), ("is_family", "=", False),
           ("external_references.source_name", "=", "cve"), ("external_references.external_id", "!=", "CVE-1"),
           ("external_references.external_id", "=", "CAPEC-3"), ("external_references.description", "contains", "d"), ("kill_chain_phases.phase_name", "=", "p2"),
